@@ -3,7 +3,8 @@
    stutter. *)
 Require Import WD.Base.Prelude WD.Base.BStr WD.Model.SubEvents WD.Model.Emitter WD.Model.MaskTable WD.Model.Fs WD.Model.Reader
                WD.Proofs.C11Proofs.
-Require Import WD.Proofs.C11TwinProofs WD.Proofs.C11SeqProofs WD.Proofs.C11FlatProofs.
+Require Import WD.Proofs.C11TwinProofs WD.Proofs.C11SeqProofs WD.Proofs.C11FlatProofs WD.Proofs.C11InertProofs
+               WD.Proofs.C11LagProofs.
 
 Lemma evclass_eqb_eq a b : evclass_eqb a b = true -> a = b.
 Proof. destruct a, b; simpl; intros H; try reflexivity; discriminate. Qed.
@@ -95,12 +96,13 @@ Qed.
 Theorem handler_sequential F C full :
   c_mask C = WATCHDOG_ALL -> c_root C <> [] -> last_is_sep (c_root C) = false ->
   forall w ops evsU, Forall op_ok ops ->
+    (c_recursive C = true -> c_fix_moveout C = true -> tidy_from C full w ops) ->
     run_from None C full w ops = Some evsU ->
     exists evsF, run_from F (with_mask C (kmask F (c_recursive C))) full w ops = Some evsF /\
       forall keptU keptF, skips None evsU keptU -> skips None evsF keptF ->
         stutter_eq keptF (filter (acc F) keptU).
 Proof.
-  intros HM R1 R2 w ops evsU Hops H.
+  intros HM R1 R2 w ops evsU Hops Hreg H.
   exists (filter (acc F) evsU). split; [apply transparent_from_all; assumption|].
   intros keptU keptF HU HF. eapply stutter_closure; [reflexivity | exact HU | exact HF].
 Qed.
@@ -110,7 +112,8 @@ Record dhist := { dh_cfg : cfg; dh_world : world; dh_ops : list op }.
 
 Definition with_rec (C : cfg) (recursive : bool) : cfg :=
   {| c_recursive := recursive; c_mask := c_mask C; c_root := c_root C; c_fix_ignored := c_fix_ignored C;
-     c_fix_movein := c_fix_movein C; c_fix_simulate := c_fix_simulate C; c_faults := c_faults C |}.
+     c_fix_movein := c_fix_movein C; c_fix_simulate := c_fix_simulate C; c_fix_moveout := c_fix_moveout C;
+     c_faults := c_faults C |}.
 
 (* the events queued over a history in which every operation is drained, for a watch with filter F *)
 Definition events_drained (F : option (list evbase)) (full_events recursive : bool) (h : dhist) : list nevent :=
@@ -120,26 +123,27 @@ Definition events_drained (F : option (list evbase)) (full_events recursive : bo
   end.
 
 (* the unfiltered watch uses WATCHDOG_ALL_EVENTS, the root path is well formed, rename sources have a base name,
-   and the unfiltered reader does not crash *)
+   the unfiltered reader does not crash, and (repaired reader) the unfiltered recursive run is tidy at its drained
+   points (C11LagProofs.tidy_from: the reader's tables mention live kernel watches only; no filter is mentioned) *)
 Definition paced_drained (h : dhist) : Prop :=
   c_mask (dh_cfg h) = WATCHDOG_ALL /\ c_root (dh_cfg h) <> [] /\ last_is_sep (c_root (dh_cfg h)) = false /\
   Forall op_ok (dh_ops h) /\
-  forall full recursive, run_from None (with_rec (dh_cfg h) recursive) full (dh_world h) (dh_ops h) <> None.
-
-Lemma with_mask_same C : with_mask C (c_mask C) = C.
-Proof. destruct C; reflexivity. Qed.
+  (forall full recursive, run_from None (with_rec (dh_cfg h) recursive) full (dh_world h) (dh_ops h) <> None) /\
+  (c_fix_moveout (dh_cfg h) = true -> forall full, tidy_from (with_rec (dh_cfg h) true) full (dh_world h) (dh_ops h)).
 
 Theorem full_drained (F : option (list evbase)) (full_events recursive : bool) (h : dhist) :
   paced_drained h ->
   stutter_eq (events_drained F full_events recursive h)
              (filter (fun e => accepts F (ev_cls e)) (events_drained None full_events recursive h)).
 Proof.
-  intros [HM [R1 [R2 [Hops Hrun]]]]. unfold events_drained.
+  intros [HM [R1 [R2 [Hops [Hrun Hreg]]]]]. unfold events_drained.
   set (C := with_rec (dh_cfg h) recursive).
   assert (HMC : c_mask C = WATCHDOG_ALL) by exact HM.
   rewrite (kmask_none recursive). rewrite <- HMC at 1. rewrite with_mask_same.
   specialize (Hrun full_events recursive). fold C in Hrun.
   destruct (run_from None C full_events (dh_world h) (dh_ops h)) as [evs|] eqn:E; [|contradiction].
-  pose proof (transparent_from_all F C full_events HMC R1 R2 (dh_world h) (dh_ops h) evs Hops E) as H.
+  assert (Hreg' : c_recursive C = true -> c_fix_moveout C = true -> tidy_from C full_events (dh_world h) (dh_ops h)).
+  { unfold C. cbn [with_rec c_recursive c_fix_moveout]. intros -> Hf. apply Hreg. exact Hf. }
+  pose proof (transparent_from_all F C full_events HMC R1 R2 (dh_world h) (dh_ops h) evs Hops Hreg' E) as H.
   change (c_recursive C) with recursive in H. rewrite H. reflexivity.
 Qed.
